@@ -50,6 +50,11 @@ func AllowAllResetsMap(p *core.Program, r *core.Report, rule string) {
 				if core.FieldOf(info, as.Rhs[0]) == fld {
 					continue
 				}
+				// ... or the all-flag of a result row the set is rebuilt from (the reviewed constructor outside package
+				// common, rule <canon>-encap: canonical iff the row is)
+				if nm, _ := callName(info, as.Rhs[0]); nm == "AllProtocolsAndPorts" {
+					continue
+				}
 				n++
 				recv := core.ExprStr(ast.Unparen(as.Lhs[0]).(*ast.SelectorExpr).X)
 				ok2 := false
@@ -147,6 +152,16 @@ func ContainerPortProtocolDefault(p *core.Program, r *core.Report, rule string) 
 				reads = true
 				if !pos.IsValid() {
 					pos = se.Pos()
+				}
+			}
+			// the switch form of the same test: switch <port>.Protocol { case "": ... }
+			if sw, isSw := nd.(*ast.SwitchStmt); isSw && sw.Tag != nil && fieldPathEndsWith(info, sw.Tag, "ContainerPort", "Protocol") {
+				for _, cc := range sw.Body.List {
+					for _, e := range cc.(*ast.CaseClause).List {
+						if v, isC := core.ConstString(info, e); isC && v == "" {
+							handlesEmpty = true
+						}
+					}
 				}
 			}
 			be, ok := nd.(*ast.BinaryExpr)
